@@ -5,6 +5,7 @@ Model/StoreErr.v).  Exceptions cross the wire as their position in props/c08_exn
 the Coq enum); the first part of every run checks that this table, the direct-base table and the whole
 isinstance matrix of the model equal the real Python classes.
 """
+import concurrent.futures
 import importlib
 import os
 import re
@@ -436,6 +437,15 @@ def s3_store(url):
     return S3ChunkStore(url, timeout=(3, 3), retries=0)
 
 
+def s3_cut_offsets(ctx, n, hdr_end, every=False):
+    """Offsets at which a transfer is cut under the whole Content-Length (every offset in the thorough tier); the objects
+    truncated in the store / other Content-Lengths are part 2b."""
+    if ctx.tier == 'thorough' or every:
+        return list(range(n + 1))
+    ks = {0, 1, 5, 6, 7, 8, 9, 10, 11, 12, hdr_end - 1, hdr_end, hdr_end + 1, n - 2, n - 1, n} | {ctx.rng.randrange(n + 1) for _ in range(6)}
+    return sorted(k for k in ks if 0 <= k <= n)
+
+
 def part_s3(ctx, files):
     from katdal.chunkstore import npy_header_and_body
     srv = c08_s3fake.FakeS3()
@@ -453,7 +463,7 @@ def part_s3(ctx, files):
             srv.put(path, full)
             exps = ctx.model([[81, [10, list(full), want_of(dt, shape)]]])[0]
             hdr_end = len(hdr)
-            for k in offsets(ctx, len(full), hdr_end, 28):
+            for k in s3_cut_offsets(ctx, len(full), hdr_end, every=(gi == 0)):
                 srv.plan(path, ('cut', k) if k < len(full) else ('ok',))
                 obs = three(store, arr, sl, x.dtype, x)
                 case = dict(part='s3_truncation', dtype=dt, shape=list(shape), offset=k, size=len(full))
@@ -467,7 +477,7 @@ def part_s3(ctx, files):
                     ctx.disagree('store=s3;fault=truncation;symptom=not_reported_missing', case, show(obs[0]),
                                  'a ChunkNotFound', 'a truncated object is not reported as a missing chunk')
                 ctx.note_case(('s3T', dt, shape, k), nontrivial=k < len(full),
-                              sample=dict(case, outcome=[show(o) for o in obs]) if k == 40 and gi == 0 else None)
+                              sample=dict(case, outcome=[show(o) for o in obs]) if k == 10 and gi == 0 else None)
                 ctx.count('s3_truncation_offsets')
             srv.plan(path, None)
         # corrupted (non-prefix) objects: raw ValueError escapes the S3 map (model: not caught)
@@ -1805,6 +1815,7 @@ def strace_fast():
 
 
 _ATTACH = [True]
+PUT_WORKERS = 8       # injected children of part 6 that run at the same time
 
 
 class _Done:
@@ -1984,15 +1995,30 @@ def part_put(ctx, tmp):
             rest = [f for f in faults if f not in keep]
             ctx.rng.shuffle(rest)
             faults = (keep + rest)[:(7 if ci == 0 else 4)]
+        # the injected children are independent of each other: each gets a directory of its own and they run a few at a
+        # time; the comparisons below then go through the results in the original order
+        tasks = []
         for (k, sc, n, what, low) in faults:
             for with_old in ((False, True) if (ctx.tier == 'thorough' or what == 'signal=SIGKILL') else (ctx.rng.random() < 0.5,)):
-                for p in (tmpn, finaln):
-                    if os.path.exists(p):
-                        os.remove(p)
-                if with_old:
-                    with open(finaln, 'wb') as f:
-                        f.write(old_bytes)
-                rep, _, _, r = run_child(d, direct, dt, shape, 2, inject='%s:%s:when=%d' % (sc, what, n), trace=trace)
+                tasks.append((k, sc, n, what, low, with_old))
+
+        def run_task(j):
+            k, sc, n, what, low, with_old = tasks[j]
+            dj = '%s_f%d' % (d, j)
+            os.makedirs(dj + '/a', exist_ok=True)
+            fj = os.path.join(dj, 'a', os.path.basename(finaln))
+            if with_old:
+                with open(fj, 'wb') as f:
+                    f.write(old_bytes)
+            return run_child(dj, direct, dt, shape, 2, inject='%s:%s:when=%d' % (sc, what, n), trace=dj + '/trace.txt')
+        with concurrent.futures.ThreadPoolExecutor(max_workers=PUT_WORKERS) as pool:
+            results = list(pool.map(run_task, range(len(tasks))))
+        d0, tmpn0, finaln0, base0 = d, tmpn, finaln, base
+        for j, (k, sc, n, what, low, with_old) in enumerate(tasks):
+            if True:
+                rep, tmpn, finaln, r = results[j]
+                d = '%s_f%d' % (d0, j)
+                base = tmpn[:-len('.writing.npy')]
                 fin, tm = file_entry(finaln), file_entry(tmpn)
                 oldw = [list(old_bytes)] if with_old else []
                 if low is None:
@@ -2049,6 +2075,8 @@ def part_put(ctx, tmp):
                 ctx.note_case(('putF', direct, dt, shape, k, what, with_old), nontrivial=True,
                               sample=dict(case, report=rep, final=state, reader=seen) if what == 'error=ENOSPC' and sc == 'write' else None)
                 ctx.count('put_faults:' + what.split('=')[1])
+                shutil.rmtree(d, ignore_errors=True)
+        d, tmpn, finaln, base = d0, tmpn0, finaln0, base0
         for p in (tmpn, finaln):
             if os.path.exists(p):
                 os.remove(p)
